@@ -1,4 +1,4 @@
-from . import tables, c15, traces, c12, c04, c06, c09, c07
+from . import tables, c15, traces, c12, c04, c06, c09, c07, c18
 
 REGISTRY = {
     'C01': traces.C01,
@@ -17,6 +17,7 @@ REGISTRY = {
     'C08': tables.C08,
     'C15': c15.C15,
     'C16': tables.C16,
+    'C18': c18.C18,
     'C19': tables.C19,
     'C20': tables.C20,
 }
